@@ -30,7 +30,7 @@ META = {
 }
 
 QUICK_SNIPPETS, THOROUGH_SNIPPETS = 350, 100000
-QUICK_GEN, THOROUGH_GEN = 120, 2500
+QUICK_GEN, THOROUGH_GEN = 400, 8000
 QUICK_MUT, THOROUGH_MUT = 1500, 40000
 
 
@@ -79,6 +79,7 @@ class Table:
         return lay, None
 
 
+TERMINATOR = re.compile(r"^(RETURN.*|LOOP|JUMP|THROW|RETHROW|JUMP_TO_FINALLY|STOP_ITERATION|CALL_METHOD_TCO(8|16)|CALL_METHOD_BC(8|16))$")
 JUMP_FWD = re.compile(r"^(JUMP|JUMP_IF.*|JUMP_UNLESS.*|FOR_IN|FOR_IN_BUILTIN)$")
 CONST8 = {"LOAD_VALUE8", "CALL_METHOD8", "CALL_METHOD_TCO8", "CALL_METHOD_BC8", "CALL_METHOD_NT8", "CALL8", "GET_CONST8", "NEXT8"}
 CONST16 = {"LOAD_VALUE16", "CALL_METHOD16", "CALL_METHOD_TCO16", "CALL_METHOD_BC16", "CALL_METHOD_NT16", "CALL16",
@@ -167,6 +168,10 @@ def py_structure(tbl, f, nfuncs):
             continue
         if not (0 <= fr < to and fr in bset and (to in bset or to == n) and jmp in bset and (not fin or jmp + 4 in bset)):
             return ("catch-entry", max(fr, 0), "%d:%d -> %d%s" % (fr, to, jmp, " finally" if fin else ""))
+    if instrs:
+        lpc = instrs[-1][0]
+        if not TERMINATOR.match(tbl.name(code[lpc])):
+            return ("falls-off-end", lpc, tbl.name(code[lpc]))   # advisory: only a defect if that instruction is reachable
     return None
 
 
@@ -193,16 +198,71 @@ def fault_sig(tbl, f, fault):
 
 
 def parse_verdicts(ans):
-    """`ok k:ok:states:depth:poly k:err:fault ...` -> list of dicts"""
+    """`ok k:ok:states:depth:poly:conflict:amb k:err:fault:conflict ...` -> list of dicts"""
     out = []
     for tk in ans.split(" ")[1:]:
         p = tk.split(":")
+        conf = None
+        if p[-1 if p[1] == "err" else 5] not in ("-", ""):
+            a, b = p[-1 if p[1] == "err" else 5].split(">")
+            conf = (int(a), int(b))
         if p[1] == "ok":
             out.append({"ok": True, "states": int(p[2]), "depth": int(p[3]),
-                        "poly": [] if p[4] == "-" else [int(x) for x in p[4].split(",")]})
+                        "poly": [] if p[4] == "-" else [int(x) for x in p[4].split(",")],
+                        "conflict": conf, "amb": p[6] == "amb"})
         else:
-            out.append({"ok": False, "fault": ":".join(p[2:])})
+            out.append({"ok": False, "fault": p[2], "conflict": conf})
     return out
+
+
+def handler_regions(tbl, f):
+    """[(from, to, handler start, end of the whole do expression)] of the non-finally catch entries.
+    compileDo emits `JUMP end` immediately before the first handler."""
+    code = bytes.fromhex(f["code"])
+    res = []
+    for fr, to, jmp, fin in f["catches"]:
+        if fin or fr == to:
+            continue
+        end = len(code)
+        if jmp >= 3 and tbl.name(code[jmp - 3]) == "JUMP":
+            end = jmp + code[jmp - 2] * 256 + code[jmp - 1]
+        res.append((fr, to, jmp, end))
+    return res
+
+
+def join_sig(tbl, f, conflict):
+    """signature of an inconsistent join from the first edge that arrives with another depth:
+    opcode of the edge's source, and where the edge leaves from / goes to relative to the innermost
+    do-expression around the source (body | tail (inline finally) | handler) x (inside | end | outside)"""
+    if conflict is None:
+        return "join|?"
+    a, b = conflict
+    code = bytes.fromhex(f["code"])
+    op = tbl.name(code[a]) if a < len(code) else "?"
+    cls = "plain"
+    for fr, to, jmp, end in sorted(handler_regions(tbl, f), key=lambda r: r[3] - r[0]):
+        where = "body" if fr <= a < to else ("tail" if to <= a < jmp else ("handler" if jmp <= a < end else None))
+        if where:
+            cls = where + "-" + ("end" if b == end else ("inside" if fr <= b < end else "outside"))
+            break
+    return "join|%s|%s" % (op, cls)
+
+
+def benign_poly(tbl, f, poly):
+    """joins at a generator's `STOP_ITERATION` (and the `LOOP` behind the final one) are depth-agnostic"""
+    code = bytes.fromhex(f["code"])
+    n = len(code)
+    return [p for p in poly if not (tbl.name(code[p]) == "STOP_ITERATION" or
+                                    (p == n - 3 and n >= 4 and tbl.name(code[n - 4]) == "STOP_ITERATION"))]
+
+
+def source_excerpt(f, n=40):
+    """source lines of a function that was compiled from a file of the elk tree"""
+    try:
+        lines = open(f["file"], errors="replace").read().split("\n")
+    except OSError:
+        return ""
+    return "\n".join(lines[max(0, f["line"] - 1):f["line"] - 1 + n])
 
 
 def finally_region_start(f):
@@ -214,33 +274,73 @@ def finally_region_start(f):
 
 # ---------------------------------------------------------------- minimisation of a failing program
 
-def minimise_program(src, still_fails):
-    """delta-debug the source by lines; still_fails(src) -> bool"""
+def ddmin_batch(items, test_many, budget=14):
+    """delta debugging where all candidates of a round are judged by one call:
+    test_many(list of item lists) -> list of bool. `budget` bounds the number of rounds."""
+    items = list(items)
+    n = 2
+    rounds = 0
+    while len(items) >= 2 and rounds < budget:
+        rounds += 1
+        chunk = max(1, len(items) // n)
+        subsets = [items[i:i + chunk] for i in range(0, len(items), chunk)]
+        cands = [[x for j, sub in enumerate(subsets) if j != i for x in sub] for i in range(len(subsets))]
+        cands = [c for c in cands if c]
+        res = test_many(cands) if cands else []
+        hit = next((c for c, ok in zip(cands, res) if ok), None)
+        if hit is not None:
+            items = hit
+            n = max(n - 1, 2)
+        else:
+            if chunk == 1:
+                break
+            n = min(n * 2, len(items))
+    return items
+
+
+def minimise_program(tbl, src, sig):
+    """delta-debug the source by lines, keeping a function with the same problem signature"""
     lines = src.split("\n")
-    if len(lines) > 60:
+    if len(lines) > 400:
         return src
+
+    def test_many(cands):
+        res = judge_programs(tbl, ["\n".join(c) for c in cands])
+        return [bool(r) and any(x[1] == sig for x in r) for r in res]
     try:
-        keep = vlib.ddmin(lines, lambda ls: still_fails("\n".join(ls)))
+        keep = ddmin_batch(lines, test_many)
     except Exception:
         return src
     return "\n".join(keep)
 
 
-def judge_program(tbl, src, name=None, abort=False):
-    """dump + verify one program; returns list of (funcname, sig, rule, detail)"""
-    a = _bc.dump_programs([{"id": "m", "src": src, "abort": abort, **({"name": name} if name else {})}])[0]
-    if a["outcome"] != "ok":
-        return None
-    out = vlib.run_model([_bc.verify_line(a["funcs"], "lax")])[0]
-    res = []
-    for f, v in zip(a["funcs"], parse_verdicts(out)):
-        if f["lib"]:
+def judge_programs(tbl, srcs, abort=False):
+    """dump + verify programs; per program None (not compiled) or list of (funcname, sig) of its lax-mode problems"""
+    answers = _bc.dump_programs([{"id": "m%d" % i, "src": s, "abort": abort} for i, s in enumerate(srcs)])
+    oks = [a for a in answers if a["outcome"] == "ok"]
+    outs = iter(vlib.run_model([_bc.verify_line(a["funcs"], "lax") for a in oks]) if oks else [])
+    result = []
+    for a in answers:
+        if a["outcome"] != "ok":
+            result.append(None)
             continue
-        if f["diserr"]:
-            res.append((f["name"], "disassemble|" + f["diserr"] + "|" + tbl.name(bytes.fromhex(f["code"])[f["disat"]]), "disassemble", ""))
-        if not v["ok"]:
-            res.append((f["name"], fault_sig(tbl, f, v["fault"]), "verifier", v["fault"]))
-    return res
+        res = []
+        for f, v in zip(a["funcs"], parse_verdicts(next(outs))):
+            if f["lib"]:
+                continue
+            if v["ok"]:
+                v["poly"] = benign_poly(tbl, f, v["poly"])
+            if f["diserr"]:
+                res.append((f["name"], "disassemble|" + f["diserr"] + "|" + tbl.name(bytes.fromhex(f["code"])[f["disat"]])))
+            if not v["ok"]:
+                kind = v["fault"].split("@")[0]
+                res.append((f["name"], join_sig(tbl, f, v["conflict"]) if kind in ("diverges", "handler-depth") else fault_sig(tbl, f, v["fault"])))
+            elif v["poly"] or v["amb"]:
+                start = finally_region_start(f)
+                if not (v["poly"] and not v["amb"] and start is not None and min(v["poly"]) >= start):
+                    res.append((f["name"], join_sig(tbl, f, v["conflict"])))
+        result.append(res)
+    return result
 
 
 # ---------------------------------------------------------------- decoder correspondence
@@ -368,7 +468,13 @@ def run(ctx):
                      sample={"program": lab, "function": f["name"], "lax": out[2 * idx].split(" ")[1 + k],
                              "strict": out[2 * idx + 1].split(" ")[1 + k]})
             py = py_structure(tbl, f, len(a["funcs"]))
+            falls = py is not None and py[0] == "falls-off-end"
+            if falls and not (not lax[k]["ok"] and lax[k]["fault"].startswith("pc-out")):
+                py = None   # the last instruction is not reachable (or the verifier found something else first)
             v, vs = lax[k], strict[k]
+            for vv in (v, vs):
+                if vv["ok"]:
+                    vv["poly"] = benign_poly(tbl, f, vv["poly"])
             problems = []
             if f["diserr"]:
                 code = bytes.fromhex(f["code"])
@@ -377,12 +483,17 @@ def run(ctx):
             if py is not None:
                 problems.append(("structure", "py|%s|%s" % (py[0], tbl.name(bytes.fromhex(f["code"])[py[1]])),
                                  "python structural oracle: %s at %d (%s)" % py))
+            JOINK = ("diverges", "handler-depth")
             if not v["ok"]:
                 kind = v["fault"].split("@")[0]
                 if kind in STRUCT_FAULTS and py is None and not f["diserr"]:
                     # the Lean verifier rejects on a structural rule the model-free oracle accepts: broken correspondence
                     ctx.violation("model-impl-disagree", {"program": src, "function": f["name"], "correspondence": "verifier vs python structure"},
                                   "lean=%s python=ok" % v["fault"], no_input=True)
+                elif kind in JOINK:
+                    problems.append(("join-depth", join_sig(tbl, f, v["conflict"]),
+                                     "operand-stack depth grows without bound / is inconsistent (%s), first conflicting edge %s"
+                                     % (v["fault"], v["conflict"])))
                 else:
                     problems.append(("verifier", fault_sig(tbl, f, v["fault"]), "verifier rejects: " + v["fault"]))
             elif py is not None and not f["diserr"]:
@@ -390,14 +501,15 @@ def run(ctx):
                               "lean=ok python=%s" % (py,), no_input=True)
             if v["ok"]:
                 ctx.stat("verdict:lax-ok")
-                if v["poly"]:
+                if v["poly"] or v["amb"]:
                     start = finally_region_start(f)
-                    if start is not None and min(v["poly"]) >= start:
+                    if v["poly"] and not v["amb"] and start is not None and min(v["poly"]) >= start:
                         poly_fin += 1
                         ctx.stat("verdict:lax-poly-in-finally-region")
                     else:
-                        problems.append(("join-depth", "poly|" + fault_sig(tbl, f, "poly@%d" % v["poly"][0]).split("|")[1],
-                                         "paths join with different operand-stack depths at pcs %s" % v["poly"][:8]))
+                        problems.append(("join-depth", join_sig(tbl, f, v["conflict"]),
+                                         "paths join with different operand-stack depths at pcs %s (first conflicting edge %s)"
+                                         % (v["poly"][:8], v["conflict"])))
                 if (not vs["ok"]) or (vs["poly"] and not v["poly"]) or (vs["ok"] and vs["depth"] > v["depth"]):
                     d16_instances += 1
                     ctx.stat("verdict:strict-only-failure(D16 class)")
@@ -409,19 +521,20 @@ def run(ctx):
                 if key in reported:
                     reported[key][3] += 1
                     continue
-                reported[key] = [rule, (lab, src, nm, f["name"]), detail, 1]
+                reported[key] = [rule, (lab, src, nm, f["name"], source_excerpt(f) if nm else None), detail, 1]
 
     # --- report each distinct problem signature once, on a minimised program
-    for sig, (rule, (lab, src, nm, fname), detail, count) in sorted(reported.items()):
+    for sig, (rule, (lab, src, nm, fname, excerpt), detail, count) in sorted(reported.items()):
         msrc = src
-        if nm is None and not ctx.replay:
-            def still(s2, sig=sig):
-                r = judge_program(tbl, s2)
-                return bool(r) and any(x[1] == sig for x in r)
-            if rule in ("verifier", "disassemble"):
-                msrc = minimise_program(src, still)
-        ctx.violation("bytecode-" + rule, {"program": msrc, "sig": sig, **({"name": nm} if nm else {})},
-                      "%s; function %s of %s; %d function(s) with this signature in this run" % (detail, fname, lab, count))
+        inp = {"program": src, "sig": sig, **({"name": nm, "context": excerpt} if nm else {})}
+        det = "%s; function %s of %s; %d function(s) with this signature in this run" % (detail, fname, lab, count)
+        pre = {"kind": "bytecode-" + rule, "input": inp, "detail": det}
+        if (ctx.match_finding(pre) is None and nm is None and not ctx.replay and not vlib.os.environ.get("C29_NOMIN")
+                and rule in ("verifier", "disassemble", "join-depth")):
+            # unknown problem: shrink the program first (known ones are recognised on the program as generated)
+            msrc = minimise_program(tbl, src, sig)
+            inp = {"program": msrc, "sig": sig}
+        ctx.violation("bytecode-" + rule, inp, det)
 
     # --- D16 class (strict-only failures) reported once on the canonical program
     if d16_instances:
